@@ -78,8 +78,8 @@ static void fill_ldl(struct CovMat *A, int positive)
 void h_choldec(void)
 {
   struct CovMat A;
-  gN = nondet_small(0, NMAX);
-  gW = nondet_small(0, gN > 0 ? gN - 1 : 0);
+  gN = GV_N; /* one (dim, band) pair per check: with symbolic dim the unwound formula exceeds 16 GB */
+  gW = GV_W;
   mk_cov(&A, gN, gW);
   fill_ldl(&A, GV_POSITIVE);
   gv_exc = 0;
@@ -107,8 +107,8 @@ void h_solve(void)
   struct CovMat A;
   struct Vec x;
   Float xs[NMAX + 1];
-  gN = nondet_small(1, NMAX);
-  gW = nondet_small(0, gN - 1);
+  gN = GV_N;
+  gW = GV_W;
   mk_cov(&A, gN, gW);
   fill_ldl(&A, 1);
   x.mem.sz = gN;
